@@ -106,7 +106,7 @@ fn constructed(rng: &mut Rng, ty: &Ty, maxlen: usize, emit: Emit) -> Option<Stri
             let st: String = (0..len).map(|_| if rng.chance(1, 2) { '1' } else { '0' }).collect();
             emit(line("from_binary", &[ty.tag, &chars_token(&st)]))
         }
-        3 => emit(line("collect", &[ty.tag, &bits_token(&gen_bits(rng, len)), ["x", "n", "l", "f"][rng.below(4)]])),
+        3 => emit(line("collect", &[ty.tag, &bits_token(&gen_bits(rng, len)), ["x", "n", "l", "f", "r"][rng.below(5)]])),
         4 => {
             let st = *rng.pick(TYPES);
             let sl = len.min(st.cap().unwrap_or(usize::MAX));
@@ -226,7 +226,7 @@ fn edit_step(rng: &mut Rng, ty: &Ty, cur: &str, over_ok: bool) -> String {
         9 => {
             let k = arg_len(rng, ty, len, over_ok).min(80);
             let bits = gen_bits(rng, k);
-            line("extend", &[cur, &bits_token(&bits), ["x", "n", "l", "f"][rng.below(4)]])
+            line("extend", &[cur, &bits_token(&bits), ["x", "n", "l", "f", "r"][rng.below(5)]])
         }
         10 if len > 0 => line("rotl", &[cur, &s(if rng.chance(1, 3) { 64 * rng.below(len / 64 + 1) } else { rng.below(len + 1) })]),
         11 if len > 0 => line("rotr", &[cur, &s(if rng.chance(1, 3) { 64 * rng.below(len / 64 + 1) } else { rng.below(len + 1) })]),
@@ -298,7 +298,7 @@ fn gen_c07(rng: &mut Rng, tier: &str, emit: Emit) {
     edit_lattice(rng, TYPES, &["F8x3", "F64x2", "F128x3", "D", "A"], emit);
     // extend / collect with iterators whose size_hint is exact, absent, a lower bound only, or an upper bound only
     for ty in TYPES {
-        for hint in ["x", "n", "l", "f"] {
+        for hint in ["x", "n", "l", "f", "r"] {
             for (cur_len, add) in [(0usize, 5usize), (60, 10), (120, 20), (127, 1), (127, 2), (128, 1), (100, 100), (0, 200), (190, 5)] {
                 let cap = ty.cap().unwrap_or(usize::MAX);
                 if cur_len > cap { continue; }
@@ -316,7 +316,7 @@ fn gen_c07(rng: &mut Rng, tier: &str, emit: Emit) {
             0 => {
                 let n0 = rng.below(20).min(ty.cap().unwrap_or(20));
                 let bits = gen_bits(rng, n0);
-                out_vec(&emit(line("collect", &[ty.tag, &bits_token(&bits), ["x", "n", "l", "f"][rng.below(4)]])))
+                out_vec(&emit(line("collect", &[ty.tag, &bits_token(&bits), ["x", "n", "l", "f", "r"][rng.below(5)]])))
             }
             _ => Some(gen_vec(rng, &ty, 200)),
         };
